@@ -116,8 +116,23 @@ func runC09(r *Run) {
 			if err := ctrl.Start(); err != nil {
 				panic(err)
 			}
-			defer ctrl.Stop()
-			w = &c09Ctrl{ctrl: ctrl, n: fn}
+			defer func() {
+				stopped := make(chan struct{})
+				go func() { ctrl.Stop(); close(stopped) }()
+				select {
+				case <-stopped:
+				case <-time.After(5 * time.Second):
+					r.Count("controller/stop-timeout")
+				}
+			}()
+			cw := &c09Ctrl{ctrl: ctrl, n: fn}
+			defer func() {
+				if cw.stuck {
+					r.Violate("the controller's expiry handler stopped taking block epochs",
+						"C09/controller-stuck", map[string]interface{}{"ops": opsIn})
+				}
+			}()
+			w = cw
 		} else {
 			w = c09Direct{watcher.NewExpiryWatcher(hd)}
 		}
@@ -249,7 +264,11 @@ func runC09(r *Run) {
 				hd.mu.Unlock()
 				if fired {
 					r.Count("concurrent-add/inside-callback")
-					<-done
+					select {
+					case <-done:
+					case <-time.After(5 * time.Second):
+						bad = "re-registration issued during an expiry callback never returned (deadlock)"
+					}
 				} else {
 					w.Add(keys[k], h)
 				}
@@ -394,7 +413,8 @@ type c09Ctrl struct {
 	ctrl interface {
 		WatchAccountExpiration(*btcec.PublicKey, uint32)
 	}
-	n *c09Notifier
+	n     *c09Notifier
+	stuck bool
 }
 
 func (c *c09Ctrl) Add(k *btcec.PublicKey, h uint32) { c.ctrl.WatchAccountExpiration(k, h) }
@@ -405,6 +425,14 @@ func (c *c09Ctrl) Add(k *btcec.PublicKey, h uint32) { c.ctrl.WatchAccountExpirat
 // has been fully processed (a repeated block is a no-op for a correct watcher;
 // if it is not, the extra notifications show up as a mismatch).
 func (c *c09Ctrl) Block(b uint32) {
-	c.n.blocks <- int32(b)
-	c.n.blocks <- int32(b)
+	for i := 0; i < 2; i++ {
+		select {
+		case c.n.blocks <- int32(b):
+		case <-time.After(5 * time.Second):
+			// the controller's expiry handler no longer takes
+			// block epochs (stuck or gone)
+			c.stuck = true
+			return
+		}
+	}
 }
